@@ -370,6 +370,9 @@ PROPS = {
              "what": "A: any RDATA of 0..=6 octets: accepted iff >= 4 octets, consumes exactly 4, re-composes to the same octets"},
             {"group": "g0", "name": "c05_aaaa_roundtrip", "kind": "complete", "tier": "quick",
              "what": "AAAA: every address: rdlen == 16 == octets written; parse(compose(x)) == x"},
+            {"group": "g0", "name": "c05_charstr_parse_every_length", "kind": "complete", "tier": "quick",
+             "what": "CharStr::parse (HINFO, TXT, NAPTR, CAA ... fields): every length octet 0..=255 and every available input length "
+                     "1..=256: accepted iff the announced octets are there, length and consumed octets exact"},
             {"group": "g0", "name": "c05_ds_roundtrip_bounded", "kind": "bounded", "tier": "quick",
              "bound": "all scalar fields, digest 0..=6 octets", "what": "DS: rdlen exact, round trip, re-compose fixpoint"},
             {"group": "g0", "name": "c05_dnskey_roundtrip_bounded", "kind": "bounded", "tier": "quick",
